@@ -223,10 +223,11 @@ func (tr *Transaction) Commit() error {
 			if cerr != nil {
 				tr.commitFailed = true
 				// The record, which carries tr.seq, may have reached the manifest
-				// and may stay there (see discard). Consume the transaction's
-				// sequence numbers so that a later write can never collide with
-				// them and be skipped by journal recovery.
-				tr.db.setSeq(tr.seq)
+				// and may stay there. The transaction's sequence numbers are
+				// consumed when the transaction ends (see discard), not here:
+				// publishing tr.seq while the commit can still be retried would
+				// let a snapshot taken in between see the transaction's entries
+				// once the retry installs its tables.
 				tr.db.logf("transaction@commit error R·%d %q", retry, cerr)
 				select {
 				case <-time.After(time.Second):
@@ -278,6 +279,12 @@ func (tr *Transaction) discard() {
 	// now; if even that fails keep the files: unless the record turns out to
 	// be durable they are unreferenced and removed by the next Open.
 	if tr.commitFailed {
+		// The failed commit's record carries tr.seq and may stay in a manifest
+		// (or turn out durable after a crash): consume the transaction's
+		// sequence numbers so that a later write can never collide with them
+		// and be skipped by journal recovery. The transaction still holds the
+		// write lock, so no write has used them yet.
+		tr.db.setSeq(tr.seq)
 		tr.db.compCommitLk.Lock()
 		keep := false
 		if tr.db.s.manifestFailed {
